@@ -32,6 +32,9 @@ CONSTANTS Inputs,       \* raw input classes used (for every step and signal)
           ShortInputs,  \* accepted raw input classes used, in addition, for the steps in ShortSteps: "vs"
           Displays,     \* display shapes used
           PerStep,      \* TRUE: every assignment of a shape to each step; FALSE: all steps the same shape
+          RegSingles,   \* TRUE: also the schemas in which exactly one step is registered
+          SigRegs,      \* signal registrations used: "same" (key = signal ID), "differ" (key # signal ID)
+          OwnIdCalls,   \* TRUE: also signal calls that name the signal's own ID OwnSigId
           BehSet,       \* step handler behaviours used
           ExtraBehs,    \* further entries of the (output ID class x data class) product, enumerated for every step
                         \* but on one run and one accepted input only (the outcome depends on neither)
@@ -56,6 +59,11 @@ ASSUME MapInputs \subseteq ValidInputs
 ASSUME MapBehs \subseteq Behs
 ASSUME ShortInputs \subseteq ValidInputs
 ASSUME Displays \subseteq DisplayShapes /\ Displays # {}
+D0 == [s \in StepIds |-> "none"]
+L0 == [reg |-> StepIds, sigreg |-> [s \in StepIds |-> "same"]]
+Layouts == {[reg |-> r, sigreg |-> [s \in StepIds |-> g]] :
+               r \in {StepIds} \cup (IF RegSingles THEN {{s} : s \in StepIds} ELSE {}), g \in SigRegs}
+ASSUME SigRegs \subseteq {"same", "differ"} /\ SigRegs # {}
 DisplayAssignments == IF PerStep THEN [StepIds -> Displays] ELSE {[s \in StepIds |-> d] : d \in Displays}
 ASSUME BehSet \subseteq Behs /\ ExtraBehs \subseteq Behs /\ MapExtraBehs \subseteq Behs
 
@@ -77,12 +85,17 @@ SignalCalls ==
     \cup (IF WithUnknown
           THEN {MkCall("signal", s, r, NoSig, V0, "none") : s \in StepIds, r \in Runs}
                \cup {MkCall("signal", NoStep, R0, SigId, V0, "none")}
+               \cup (IF OwnIdCalls THEN {MkCall("signal", s, r, OwnSigId, V0, "none") : s \in StepIds, r \in Runs} ELSE {})
           ELSE {})
 
 Calls == StepCalls \cup SignalCalls
 
+\* the displays vary with the default layout, the layouts with no display (the two do not interact)
+AttrChoices == {<<d, CHOOSE l \in Layouts : l = L0 \/ L0 \notin Layouts>> : d \in DisplayAssignments}
+               \cup {<<CHOOSE d \in DisplayAssignments : d = D0 \/ D0 \notin DisplayAssignments, l>> : l \in Layouts}
+
 MCInit ==
-    /\ \E cv \in [Procs -> Calls] : \E d \in DisplayAssignments : InitWith(cv, d)
+    /\ \E cv \in [Procs -> Calls] : \E a \in AttrChoices : InitWith(cv, a[1], a[2])
     /\ hist = <<>>
     /\ racy = FALSE
 
@@ -116,5 +129,5 @@ Export ==
     (AllDone /\ KeepHist) =>
         Emit([calls |-> call, hist |-> hist, ledger |-> ledger, res |-> res,
               ic |-> initCount, sd |-> stepData, racy |-> racy, noinit |-> NoInitSteps,
-              mapsteps |-> MapSteps, shortsteps |-> ShortSteps, display |-> display])
+              mapsteps |-> MapSteps, shortsteps |-> ShortSteps, display |-> display, reg |-> layout.reg, sigreg |-> layout.sigreg])
 =============================================================================
